@@ -256,6 +256,17 @@ func (k Keeper) GetCumulativeLogCountTransient(ctx sdk.Context, exceptCurrent bo
 	return total
 }
 
+// getCumulativeGasUsedTransient returns the sum of gas used by all transactions counted so far in the current block,
+// including the current one.
+func (k Keeper) getCumulativeGasUsedTransient(ctx sdk.Context) uint64 {
+	var total uint64
+	txCount := k.GetTxCountTransient(ctx)
+	for i := uint64(0); i < txCount; i++ {
+		total += k.GetGasUsedForTdxIndexTransient(ctx, i)
+	}
+	return total
+}
+
 // SetTxReceiptForCurrentTxTransient sets the receipt for the current transaction in the transient store.
 func (k Keeper) SetTxReceiptForCurrentTxTransient(ctx sdk.Context, receiptBz []byte) {
 	txIdx := k.GetTxCountTransient(ctx) - 1
@@ -440,7 +451,7 @@ func (k Keeper) SetupExecutionContext(ctx sdk.Context, ethTx *ethtypes.Transacti
 				Type:              ethTx.Type(),
 				PostState:         nil,
 				Status:            ethtypes.ReceiptStatusFailed,
-				CumulativeGasUsed: k.GetCumulativeLogCountTransient(ctx, false),
+				CumulativeGasUsed: k.getCumulativeGasUsedTransient(ctx),
 				Bloom:             ethtypes.Bloom{}, // compute below
 				Logs:              []*ethtypes.Log{},
 			}
